@@ -16,6 +16,7 @@ import (
 	"context"
 	"fmt"
 	"hash/fnv"
+	"os"
 	"runtime"
 	"runtime/debug"
 	"sort"
@@ -48,6 +49,10 @@ type G struct {
 	Lib    bool  // created by instrumented library code (as opposed to a harness task)
 	steps  int
 	gid    int64 // real goroutine id (paranoid mode)
+	// polling detection (see Run)
+	spinTurns int
+	spinSites []string
+	spinning  bool
 }
 
 func (g *G) State() string {
@@ -128,26 +133,30 @@ type Sim struct {
 	changeAt  map[int]bool
 	schedHash uint64
 	// statistics
-	MaxEnabled   int
-	Switches     int
-	SwitchPairs  map[string]struct{}
-	Trace        []string // first scheduling decisions, for samples
-	TraceAll     bool
-	AutoAdvances int // times the clock was moved to a library timer
-	tickers      []*ticker
-	rootChildren int
-	sameTurns    int
-	timerFires   int
-	lastSite     string
-	onces        map[*sync.Once]*onceState
-	timerOf      map[*time.Timer]time.Time
-	recent       [16]string // ring of the last scheduling decisions
-	SimTime      time.Duration
-	nroot        int
-	nativeAny    bool
-	afSeq        int
-	conds        map[*sync.Cond][]*condWaiter
-	timers       []time.Time // deadlines of timers created by instrumented library code
+	MaxEnabled      int
+	Switches        int
+	SwitchPairs     map[string]struct{}
+	Trace           []string // first scheduling decisions, for samples
+	TraceAll        bool
+	AutoAdvances    int // times the clock was moved to a library timer
+	SpinQuiescences int // times a lone polling goroutine was taken for blocked
+	tickers         []*ticker
+	rootChildren    int
+	sameTurns       int
+	loneSpin        int
+	Spinners        int // goroutines ever taken for pollers
+	sameGTurns      int
+	timerFires      int
+	lastSite        string
+	onces           map[*sync.Once]*onceState
+	timerOf         map[*time.Timer]time.Time
+	recent          [16]string // ring of the last scheduling decisions
+	SimTime         time.Duration
+	nroot           int
+	nativeAny       bool
+	afSeq           int
+	conds           map[*sync.Cond][]*condWaiter
+	timers          []time.Time // deadlines of timers created by instrumented library code
 }
 
 var cur atomic.Pointer[Sim]
@@ -569,7 +578,7 @@ func (s *Sim) Run() Outcome {
 		if len(en) == 0 {
 			// nothing can run: if the library itself is waiting on a timer, move
 			// the fake clock to the earliest one and look again
-			if d, ok := s.nextTimer(); ok && advN < AutoAdvanceMax && s.AutoAdvances < AutoAdvanceRunMax {
+			if d, ok := s.nextTimer(); ok && advN < AutoAdvanceMax && (s.AutoAdvances < AutoAdvanceRunMax || advN < AutoAdvanceReserve) {
 				advN++
 				// a ticker that keeps the run from resting is served with growing
 				// strides (a process that was not scheduled for a while misses ticks
@@ -599,6 +608,11 @@ func (s *Sim) Run() Outcome {
 			return Quiescent
 		}
 		if s.Step >= s.MaxStep {
+			if spinDebug {
+				for _, g := range en {
+					fmt.Fprintf(dbgOut(), "STEPCAP enabled %s@%s spin=%d\n", g.Name, g.Site, g.spinTurns)
+				}
+			}
 			return StepCap
 		}
 		// A pending timer of the library may also expire while goroutines are
@@ -615,6 +629,18 @@ func (s *Sim) Run() Outcome {
 		}
 		if len(en) > s.MaxEnabled {
 			s.MaxEnabled = len(en)
+		}
+		if s.Spinners > 0 {
+			// pollers wait while anybody else can run (see below)
+			var rest []*G
+			for _, o := range en {
+				if !o.spinning {
+					rest = append(rest, o)
+				}
+			}
+			if len(rest) > 0 {
+				en = rest
+			}
 		}
 		g := en[s.choose(en)]
 		// Weak fairness: a goroutine that comes back to the same scheduling point
@@ -635,7 +661,70 @@ func (s *Sim) Run() Outcome {
 		} else {
 			s.sameTurns = 0
 		}
+		// The same for a loop through several places (an atomic load, then a
+		// select with a default): after FairAfterAny turns in a row of one
+		// goroutine while others could run, the one that has run least goes next.
+		// Any context switch is a legal schedule, so this cannot create an alarm;
+		// priority schedules and minimised tapes would otherwise starve the
+		// goroutines a spinning one is waiting for.
+		if len(en) > 1 && g == s.last {
+			s.sameGTurns++
+			if s.sameGTurns > FairAfterAny {
+				s.sameGTurns = 0
+				var best *G
+				for _, o := range en {
+					if o != g && (best == nil || o.steps < best.steps) {
+						best = o
+					}
+				}
+				g = best
+			}
+		} else {
+			s.sameGTurns = 0
+		}
 		s.lastSite = g.Site
+		// A goroutine that polls (an atomic load, a select with a default, a lock
+		// taken and given back: more than SpinDetectAfter turns in a row through at
+		// most four such places) waits for somebody else. While others can run they
+		// go first (what runtime.Gosched in such a loop asks for; any order is a
+		// legal schedule), and when only pollers can run they are as good as
+		// blocked: a Close that spins until the requests in flight have gone, while
+		// the workload holds their handlers until the next quiescent point, would
+		// otherwise never let that point come. After SpinQuiescentAfter turns of
+		// pollers alone Run reports quiescence; they keep their turn for the next
+		// call. A poller is an ordinary goroutine again at its first step elsewhere.
+		if pollingSite(g.Site) && (g.spinHas(g.Site) || len(g.spinSites) < 4) {
+			if !g.spinHas(g.Site) {
+				g.spinSites = append(g.spinSites, g.Site)
+			}
+			g.spinTurns++
+			if g.spinTurns > SpinDetectAfter && !g.spinning {
+				g.spinning = true
+				s.Spinners++
+				if spinDebug {
+					fmt.Fprintf(dbgOut(), "SPIN-DETECT %s@%s\n", g.Name, g.Site)
+				}
+			}
+		} else {
+			g.spinTurns, g.spinSites, g.spinning = 0, g.spinSites[:0], false
+			if pollingSite(g.Site) {
+				g.spinSites = append(g.spinSites, g.Site)
+				g.spinTurns = 1
+			}
+		}
+		if g.spinning {
+			s.loneSpin++
+			if s.loneSpin > SpinQuiescentAfter {
+				s.loneSpin = 0
+				s.SpinQuiescences++
+				if spinDebug {
+					fmt.Fprintf(dbgOut(), "SPIN-QUIESCENT %s@%s\n", g.Name, g.Site)
+				}
+				return Quiescent
+			}
+		} else {
+			s.loneSpin = 0
+		}
 		// remove from parked
 		for i, p := range s.parked {
 			if p == g {
@@ -811,12 +900,52 @@ func (s *Sim) RecentSites(n int) string {
 	return strings.Join(out, " ")
 }
 
+// FairAfterAny: see Run.
+var FairAfterAny = 400
+
+// SpinQuiescentAfter is the number of consecutive turns of a lone polling
+// goroutine after which Run reports quiescence.
+var SpinQuiescentAfter = 100
+
+// SpinDetectAfter: see Run.
+var SpinDetectAfter = 300
+
+var spinDebug = os.Getenv("VERIF_SPINDEBUG") != ""
+
+// dbgOut is where the VERIF_SPINDEBUG lines go (the file named by the variable).
+func dbgOut() *os.File {
+	f, err := os.OpenFile(os.Getenv("VERIF_SPINDEBUG"), os.O_APPEND|os.O_CREATE|os.O_WRONLY, 0o644)
+	if err != nil {
+		return os.Stderr
+	}
+	return f
+}
+
+func pollingSite(site string) bool {
+	return strings.HasSuffix(site, ":atomic") || strings.HasSuffix(site, ":trysel") || strings.HasSuffix(site, ":lock")
+}
+
+func (g *G) spinHas(site string) bool {
+	for _, x := range g.spinSites {
+		if x == site {
+			return true
+		}
+	}
+	return false
+}
+
 // Limit of the automatic clock advance to library timers, per Run call.
 var AutoAdvanceMax = 40
 
 // AutoAdvanceRunMax is the same limit for a whole run (many goroutines that each
 // re-arm a timer would otherwise use up the step budget between them).
 var AutoAdvanceRunMax = 100
+
+// AutoAdvanceReserve advances are granted to every Run call even when the
+// run-wide limit is used up: a library with a perpetual ticker (a 50 ms monitor
+// that notices the stop at its next tick) exhausts the run-wide limit at the
+// first few quiescent points, and must still be seen to finish at the last ones.
+var AutoAdvanceReserve = 4
 
 // Timers and tickers of instrumented code: created on the bubble's fake clock
 // as usual, and made known to the scheduler so that it moves the clock to them
